@@ -58,6 +58,9 @@ def mk_old_placer():
     return batch.Placer(OLD_DECL, tparams=OLD_TPARAMS, extra_system="P0 := T(m, 2, 3, 4);\nsystem P0;", job_extra={"newxta": False})
 
 
+UPD_STRIDE = 4
+
+
 def place(n, cs):
     """-> list of cases (one per placement)"""
     text = lv(cs["lv"])
@@ -78,6 +81,11 @@ def place(n, cs):
         out.append({"role": "assign", "text": w, "ctx": "update"})
         if not comma:
             out.append({"role": "gdecl", "text": "void w%d() { %s; }" % (n, w), "ctx": "function"})
+        # the update hooks of the model: a document holds one of each, so such a case has a model of its own
+        if n % UPD_STRIDE == 0:
+            out.append({"role": "gdecl", "text": "before_update { %s }" % w, "ctx": "before_update", "alone": True})
+        if n % UPD_STRIDE == UPD_STRIDE // 2:
+            out.append({"role": "gdecl", "text": "after_update { %s }" % w, "ctx": "after_update", "alone": True})
     elif comma:
         pass
     elif wheres & {"flocal", "fparam", "iter"}:
@@ -109,9 +117,12 @@ def run(tier):
                 case["with"] = pl["with"]
             if pl.get("old"):
                 case["old"] = True
+            if pl.get("alone"):
+                case["alone"] = True
             cases.append(case)
             info[cid] = (cs, pl)
-    verdict = batch.run_placed(vf, [x for x in cases if not x.get("old")], mk_placer, c.run_dir, per=50)
+    verdict = batch.run_placed(vf, [x for x in cases if not x.get("old") and not x.get("alone")], mk_placer, c.run_dir, per=50)
+    verdict.update(batch.run_placed(vf, [x for x in cases if x.get("alone")], mk_placer, c.run_dir, per=1, name="upd"))
     verdict.update(batch.run_placed(vf, [x for x in cases if x.get("old")], mk_old_placer, c.run_dir, per=50, name="old"))
     nontrivial = drift = 0
     for case in cases:
